@@ -245,31 +245,39 @@ def _convert_call(node: ast.Call) -> libsbml.ASTNode:
     raise NotImplementedError(msg)
 
 
-def _convert_compare(node: ast.Compare) -> libsbml.ASTNode:
-    # FIXME: handle cases such as x < y < z
-
-    left = _convert_node(node.left)
-    right = _convert_node(node.comparators[0])
-
-    match node.ops[0]:
+def _convert_compare_op(op: ast.cmpop) -> int:
+    match op:
         case ast.Eq():
-            op = libsbml.AST_RELATIONAL_EQ
+            return libsbml.AST_RELATIONAL_EQ
         case ast.NotEq():
-            op = libsbml.AST_RELATIONAL_NEQ
+            return libsbml.AST_RELATIONAL_NEQ
         case ast.Lt():
-            op = libsbml.AST_RELATIONAL_LT
+            return libsbml.AST_RELATIONAL_LT
         case ast.LtE():
-            op = libsbml.AST_RELATIONAL_LEQ
+            return libsbml.AST_RELATIONAL_LEQ
         case ast.Gt():
-            op = libsbml.AST_RELATIONAL_GT
+            return libsbml.AST_RELATIONAL_GT
         case ast.GtE():
-            op = libsbml.AST_RELATIONAL_GEQ
+            return libsbml.AST_RELATIONAL_GEQ
         case _:
-            raise NotImplementedError(type(node.ops[0]))
+            raise NotImplementedError(type(op))
 
-    sbml_node = libsbml.ASTNode(op)
-    sbml_node.addChild(left)
-    sbml_node.addChild(right)
+
+def _convert_compare(node: ast.Compare) -> libsbml.ASTNode:
+    # x < y < z is (x < y) and (y < z)
+    operands = [node.left, *node.comparators]
+    pairs = []
+    for op, left, right in zip(node.ops, operands[:-1], operands[1:], strict=True):
+        sbml_node = libsbml.ASTNode(_convert_compare_op(op))
+        sbml_node.addChild(_convert_node(left))
+        sbml_node.addChild(_convert_node(right))
+        pairs.append(sbml_node)
+
+    if len(pairs) == 1:
+        return pairs[0]
+    sbml_node = libsbml.ASTNode(libsbml.AST_LOGICAL_AND)
+    for pair in pairs:
+        sbml_node.addChild(pair)
     return sbml_node
 
 
